@@ -15,7 +15,7 @@ fn decode(u: &mut Unstructured) -> arbitrary::Result<Vec<Op>> {
     let mut ops = Vec::new();
     for _ in 0..n {
         let w = *u.choose(&[0u8, 0, 0, 1, 2])?;
-        let op = match u.int_in_range(0..=19)? {
+        let op = match u.int_in_range(0..=22)? {
             0 | 1 => Op::Insert { w, shape: u.arbitrary()?, order: u.int_in_range(0..=2)?, p: u.arbitrary()? },
             2 | 3 => Op::Extend {
                 w,
@@ -47,7 +47,9 @@ fn decode(u: &mut Unstructured) -> arbitrary::Result<Vec<Op>> {
                 salt: u.arbitrary()?,
             },
             12 => Op::EntryQuery { w, t: u.arbitrary()?, q: u.arbitrary()?, salt: u.arbitrary()? },
-            13 => Op::EntriesQuery { w, e: u.arbitrary()?, ts: vec![u.arbitrary()?, u.arbitrary()?], salt: u.arbitrary()? },
+            13 => Op::EntriesQuery { w, e: u.arbitrary()?, ts: vec![u.arbitrary()?, u.arbitrary()?], salt: u.arbitrary()?, interleave: u.arbitrary()? },
+            20 => Op::EntryChain { w, t: u.arbitrary()?, steps: vec![(u.int_in_range(0..=2)?, u.arbitrary()?, u.arbitrary()?), (u.int_in_range(0..=2)?, u.arbitrary()?, u.arbitrary()?), (2, 0, 0)] },
+            21 => Op::ExtendRagged { w, shape: u.arbitrary()?, lens: vec![u.int_in_range(0..=3)?, u.int_in_range(0..=3)?, u.int_in_range(0..=3)?], p: u.arbitrary()? },
             14 => Op::Reserve { w, shape: u.arbitrary()?, n: u.int_in_range(0..=300)? },
             15 => Op::Shrink { w },
             16 => Op::CloneTo { src: u.int_in_range(0..=2)?, dst: u.int_in_range(0..=2)? },
